@@ -207,6 +207,8 @@ def c01_sanitizers(tier, seed, out):
     lines = loopgen.gen_c01(tier, seed + 1000)
     if tier == "quick":
         lines = lines[:300]
+    else:
+        lines = lines[:5000]
     plain = [l for l in lines if "panic=" not in l]
     panics = [l for l in lines if "panic=" in l]
     sanitizer_loop("C01", "asan", "loopdrv", plain, out, ASAN_ENV, judge_checks=LO.ALL_CHECKS["C01"], marker="asan_lsan")
